@@ -1,10 +1,47 @@
 //! rbv — harness that runs the real rustybuzz implementation for the correspondence checks.
-//! One binary, one sub-command per check component; all output is line oriented on stdout.
+//! One binary, one sub-command per property module (src/cNN.rs); all output is line oriented on stdout.
+//! Modules cNN need the guarded hooks (`--cfg rustybuzz_verif`); `shape` and `api_*` are public-API only.
+#![allow(dead_code)]
 mod util;
 mod shp;
 mod cmd_shape;
+mod fontgen;
+#[cfg(rustybuzz_verif)]
+mod c01;
+#[cfg(rustybuzz_verif)]
+mod c02;
+#[cfg(rustybuzz_verif)]
+mod c03;
+#[cfg(rustybuzz_verif)]
+mod c04;
+#[cfg(rustybuzz_verif)]
+mod c05;
+#[cfg(rustybuzz_verif)]
+mod c06;
+#[cfg(rustybuzz_verif)]
+mod c07;
+#[cfg(rustybuzz_verif)]
+mod c08;
+#[cfg(rustybuzz_verif)]
+mod c09;
 #[cfg(rustybuzz_verif)]
 mod c10;
+#[cfg(rustybuzz_verif)]
+mod c11;
+#[cfg(rustybuzz_verif)]
+mod c12;
+#[cfg(rustybuzz_verif)]
+mod c13;
+#[cfg(rustybuzz_verif)]
+mod c14;
+#[cfg(rustybuzz_verif)]
+mod c15;
+#[cfg(rustybuzz_verif)]
+mod c16;
+#[cfg(rustybuzz_verif)]
+mod c17;
+#[cfg(rustybuzz_verif)]
+mod c18;
 
 fn main() {
     let args: Vec<String> = std::env::args().skip(1).collect();
@@ -16,7 +53,41 @@ fn main() {
     match args[0].as_str() {
         "shape" => cmd_shape::run(rest),
         #[cfg(rustybuzz_verif)]
+        "c01" => c01::run(rest),
+        #[cfg(rustybuzz_verif)]
+        "c02" => c02::run(rest),
+        #[cfg(rustybuzz_verif)]
+        "c03" => c03::run(rest),
+        #[cfg(rustybuzz_verif)]
+        "c04" => c04::run(rest),
+        #[cfg(rustybuzz_verif)]
+        "c05" => c05::run(rest),
+        #[cfg(rustybuzz_verif)]
+        "c06" => c06::run(rest),
+        #[cfg(rustybuzz_verif)]
+        "c07" => c07::run(rest),
+        #[cfg(rustybuzz_verif)]
+        "c08" => c08::run(rest),
+        #[cfg(rustybuzz_verif)]
+        "c09" => c09::run(rest),
+        #[cfg(rustybuzz_verif)]
         "c10" => c10::run(rest),
+        #[cfg(rustybuzz_verif)]
+        "c11" => c11::run(rest),
+        #[cfg(rustybuzz_verif)]
+        "c12" => c12::run(rest),
+        #[cfg(rustybuzz_verif)]
+        "c13" => c13::run(rest),
+        #[cfg(rustybuzz_verif)]
+        "c14" => c14::run(rest),
+        #[cfg(rustybuzz_verif)]
+        "c15" => c15::run(rest),
+        #[cfg(rustybuzz_verif)]
+        "c16" => c16::run(rest),
+        #[cfg(rustybuzz_verif)]
+        "c17" => c17::run(rest),
+        #[cfg(rustybuzz_verif)]
+        "c18" => c18::run(rest),
         other => {
             eprintln!("unknown command {other}");
             std::process::exit(2);
